@@ -184,6 +184,26 @@ func genC15Prog(rng *rand.Rand, bodyLen int, minor int) c15Prog {
 	if rng.Intn(6) == 0 {
 		p.ops = append(p.ops, c15Op{kind: "f"}, c15Op{kind: "f"})
 	}
+	// 1/6: the handler goes on setting header fields after the header block has been produced (too late to be
+	// sent): what counts for the peer, and for keeping the connection open, is what went out on the wire
+	sentAlready := false
+	for _, o := range p.ops {
+		if o.kind == "s" || o.kind == "w" || o.kind == "f" {
+			sentAlready = true
+		}
+	}
+	if sentAlready && rng.Intn(6) == 0 {
+		switch rng.Intn(4) {
+		case 3:
+			p.ops = append(p.ops, c15Op{kind: "h", k: "Trailer", v: "X-Sum"})
+		case 0:
+			p.ops = append(p.ops, c15Op{kind: "h", k: "Content-Length", v: fmt.Sprint(total)})
+		case 1:
+			p.ops = append(p.ops, c15Op{kind: "h", k: "Transfer-Encoding", v: "chunked"})
+		default:
+			p.ops = append(p.ops, c15Op{kind: "h", k: "X-Late", v: "too-late"})
+		}
+	}
 	return p
 }
 
